@@ -548,6 +548,19 @@ func main() {
 					if x.Op == token.AND {
 						root(x.X) // address taken: may be written through the pointer
 					}
+				case *ast.CallExpr:
+					// a method with a pointer receiver called on (a field of) a package-level variable may change it
+					if sel, ok := x.Fun.(*ast.SelectorExpr); ok {
+						if sl := p.TypesInfo.Selections[sel]; sl != nil && sl.Kind() == types.MethodVal {
+							if fn, ok := sl.Obj().(*types.Func); ok {
+								if recv := fn.Type().(*types.Signature).Recv(); recv != nil {
+									if _, isPtr := recv.Type().(*types.Pointer); isPtr {
+										root(sel.X)
+									}
+								}
+							}
+						}
+					}
 				}
 				return true
 			})
@@ -598,9 +611,17 @@ func main() {
 						if obj == nil || n.Name == "_" {
 							continue
 						}
-						if named, ok := obj.Type().(*types.Named); ok && named.Obj().Pkg() != nil && named.Obj().Pkg().Path() == "sync" && named.Obj().Name() == "Map" {
-							resets = append(resets, n.Name+".Clear()")
-							continue
+						if named, ok := obj.Type().(*types.Named); ok && named.Obj().Pkg() != nil && named.Obj().Pkg().Path() == "sync" {
+							switch named.Obj().Name() {
+							case "Map":
+								resets = append(resets, n.Name+".Clear()")
+								continue
+							case "Pool":
+								resets = append(resets, "verifsim.DrainPools() // "+n.Name)
+								continue
+							case "Once", "Mutex", "RWMutex", "WaitGroup":
+								continue // no observable history once quiescent (a used Once is reported below)
+							}
 						}
 						if written[obj] && len(vs.Values) == 0 {
 							// plain package-level state assigned at run time and starting from the zero value
